@@ -27,12 +27,14 @@ RULE = ('Each case draws a universe (1-8 of 16 database chemicals in any order, 
         'database alias|user alias) | group | tuple/list of names | tuple/list mixing names and groups | ... | phase '
         '(swapped case when unambiguous) | (phase, key) | (..., key). "key": one read, one write (scalar, vector, '
         'per-phase, 2-d or sparse data), read-back, all other entries untouched. "history": up to 40 steps of read / '
-        'write / re-read / the same key on another stream / bulk lookup of 50-700 distinct tuple keys / new indexer (same phases, copy, other phases, '
-        'twin universe) / cross-package copy_like|separate_out from a permuted sub-package / read through the CAS tuple '
-        'of that copy / set_alias / define_group, all reads compared with the model, memoised reads repeated at the end '
+        'write / re-read / the same key on another stream / bulk lookup of 50-700 distinct tuple keys / new indexer '
+        '(same phases, copy, other phases, single-phase, '
+        'twin universe) / cross-package copy_like|separate_out from a permuted sub-package / read or write through the '
+        'CAS tuple of that copy / set_alias / define_group, all reads compared with the model, memoised reads repeated at the end '
         '(bitwise equal when the stream was not written in between), all names resolved again, lookup caches audited. '
         '"shared": 2-4 streams over one universe or its twin (same phases, same number of other phases, any phases, '
-        'single-phase) and 1-8 keys, each applied to every stream on which it is a valid key. '
+        'single-phase) and 1-8 keys, each applied to every stream on which it is a valid key. "names": every name '
+        'through index/indices/get_aliases/attribute access, write through one name and read through all others. '
         'Oracle: own dense array + own name and group tables. Non-trivial: a history in which a bounded cache '
         'overflowed before a checked read or that wrote through a group/nested key; a key case whose key is not a '
         'bare ID. Distinct by (check, stream kind, phases, view, key shape, data shape, cache-overflow flags, op names).')
@@ -47,7 +49,7 @@ ASSUMPTIONS = ['names are at least two characters long (a one-letter alias would
                '(..., tuple) a scalar, one value per element or a phases x elements array (NumPy broadcasting)',
                'cross-package copies use a sender whose chemicals (by CAS) are a subset of the receiver package and whose '
                'phase is one of the receiver phases',
-               'values are finite, |x| <= 1e150; all comparisons use rtol 1e-12 of the largest expected entry']
+               'values are finite, |x| <= 1e150; every comparison allows 1e-12 * max(1, largest model entry, largest expected entry)']
 REQUIRED_CELLS = {'quick': ['key:ix=S', 'key:ix=M', 'key:pk=sum', 'key:pk=phase', 'key:pk=pk', 'key:pk=allp',
                             'key:ck=name', 'key:ck=group', 'key:ck=seq', 'key:ck=nested', 'key:ck=all',
                             'key:fl=mass', 'key:swapcase', 'hist:ev100', 'hist:crossed500', 'hist:op=xcopy',
@@ -877,12 +879,19 @@ def audit(ctx, W):
         prow = {p: i for i, p in enumerate(phases)}
         for p in list(prow):
             prow.setdefault(p.swapcase(), prow[p])
-        for key, val in list(cache.items()):
+        def mkind(key):
+            ck = key
+            if isinstance(key, tuple) and len(key) == 2 and (key[0] is ... or (isinstance(key[0], str) and key[0] in prow)):
+                ck = key[1]
+            return entry_kind(ck, U)
+        items = sorted(cache.items(), key=lambda kv: mkind(kv[0]) == 'castuple')  # stable
+        for key, val in items:
             want = resolve_material(U, prow, key)
             if want is None: continue
             ok = len(val) == 3 and val[2] == want[2] and val[1] == want[1] and _eq_index(val[0], want[0])
             if not ok:
-                ctx.fail('audit|cache=material500|mismatch', f'{phases} {key!r} -> {val!r}, fresh lookup gives {want!r}')
+                ctx.fail(f'audit|cache=material500,entry={mkind(key)}|mismatch',
+                         f'{phases} {key!r} -> {val!r}, fresh lookup gives {want!r}')
 
 
 def entry_kind(key, U):
